@@ -444,6 +444,59 @@ def check_c05(tier: str) -> int:
                     if reported[("multi", fam)] <= 2:
                         ck.violation("a record reads differently inside a multi-record message than the document says",
                                      dict(replay, trigger={"class": "multi:" + cls}, record_index=i, failure=desc))
+    # variable-length extended messages: console version (update flag: any non-zero byte; versions separated as the
+    # generation's document says) and AC error information (AC number, text or none)
+    for gen in (4, 5):
+        c = codec_tie.codec(gen)
+        sep = 0x7C if gen == 4 else 0x2C
+        texts = [b"1.2.3", b"", b"1.0|2.0", b"1.0,2.0", b"a|b,c", "v\u00fc".encode(), b"|", b","]
+        vcases = [(ub, t) for ub in range(256) for t in (texts if ub in (0, 1, 2, 0x80, 0xFF) else texts[:1])]
+        specs = common.run_model([[SPEC, 10, sep, ub, len(t)] + list(t) for ub, t in vcases])
+        for (ub, t), sp in zip(vcases, specs):
+            ck.count()
+            dist[f"at{gen}_version_messages"] += 1
+            payload = b"\xff\x30" + bytes([ub, len(t)]) + t
+            d = c.impl_decode(0x1F, payload)
+            if d[0] != "ok":
+                bad = f"decoder raised {d[1]}"
+            else:
+                m = d[1].sub_message
+                # spec flat: [bool, n, (len, bytes...)*]
+                want_up = bool(sp[0])
+                want_vs, i = [], 2
+                for _ in range(sp[1]):
+                    ln = sp[i]
+                    want_vs.append(bytes(sp[i + 1:i + 1 + ln]))
+                    i += 1 + ln
+                got_vs = [v.encode() for v in m.versions]
+                bad = None if (bool(m.update_available), got_vs) == (want_up, want_vs) else \
+                    f"decoder ({m.update_available}, {got_vs}), document ({want_up}, {want_vs})"
+            if bad:
+                reported[("version", gen)] += 1
+                if reported[("version", gen)] <= 2:
+                    ck.violation("decoder departs from the vendor document",
+                                 {"kind": "conformance", "trigger": {"class": f"at{gen}_version"}, "layout": f"at{gen}_console_version",
+                                  "payload": payload.hex(), "message_type": 0x1F, "failure": bad})
+        ecases = [(ac, t) for ac in (0, 1, 3, 15, 255) for t in (None, b"ER: 05", b"", "F\u00fc".encode(), b"x" * 40)]
+        specs = common.run_model([[SPEC, 9, ac, 0 if t is None else len(t)] + list(t or b"") for ac, t in ecases])
+        for (ac, t), sp in zip(ecases, specs):
+            ck.count()
+            dist[f"at{gen}_error_messages"] += 1
+            payload = b"\xff\x10" + bytes([ac, 0 if t is None else len(t)]) + (t or b"")
+            d = c.impl_decode(0x1F, payload)
+            if d[0] != "ok":
+                bad = f"decoder raised {d[1]}"
+            else:
+                m = d[1].sub_message
+                want = None if sp[1] == 0 else bytes(sp[3:3 + sp[2]])
+                got = None if m.error_info is None else m.error_info.encode()
+                bad = None if (m.ac_number, got) == (sp[0], want) else f"decoder ({m.ac_number}, {got}), document ({sp[0]}, {want})"
+            if bad:
+                reported[("errinfo", gen)] += 1
+                if reported[("errinfo", gen)] <= 2:
+                    ck.violation("decoder departs from the vendor document",
+                                 {"kind": "conformance", "trigger": {"class": f"at{gen}_error_info"}, "layout": f"at{gen}_error_info",
+                                  "payload": payload.hex(), "message_type": 0x1F, "failure": bad})
     # strides
     c5 = codec_tie.codec(5)
     scases = list(stride_cases(rng, 600 if tier == "quick" else 20000))
